@@ -4,11 +4,17 @@ simulated node of specs/C25_node.py and evaluates the contracts with ghost node 
 
 Call alphabet (acts on the *current* group `g` of the one account):
     N1 N2 N3   build a new group of 1..3 transactions (unfilled); it becomes the current group
+    NR         build a new group  reveal + transaction  (an account that was never revealed; every manager content takes a counter);
+               only in the additional runs of props/C25.py (alphabet SYMS_REVEAL), not in the main enumeration
     F          g = g.fill()
     A          g = g.autofill()
     S          g = g.sign()
     I+ / I-    g.inject()            the node accepts / refuses (scenario decides, not the counters)
     X+ / X-    g.send()              autofill + sign + inject in one call, node accepts / refuses
+    J+ / J-    g.inject(prevalidate=False)      the asynchronous injection RPC (no pre-validation), accepted / failing
+    Y+ / Y-    g.send_async(ttl, counter=C+P+1, gas_limit, storage_limit)   fill + sign + inject(prevalidate=False) in one call with the
+               counter a careful caller passes (node counter + pending + 1 at the time of the call), accepted / failing
+               (J, Y: only in the additional runs over SYMS_ASYNC - mixed injection entry points on ONE shared context)
     B          new block: every pending operation is included, counters advance, mempool is emptied
 
 requires (sequences are enumerated only when every call satisfies them):
@@ -32,6 +38,9 @@ from specs import C25_node as N
 
 SECRET = 'edsk3gUfUPyBSfrS9CCgmCiQsTCHGkviBDusMxDJstFtojtc1zcpsh'
 SYMS = ['N1', 'N2', 'N3', 'F', 'A', 'S', 'I+', 'I-', 'X+', 'X-', 'B']
+SYMS_REVEAL = ['NR', 'F', 'A', 'S', 'I+', 'I-', 'X+', 'X-', 'B']
+# every injection entry point of OperationGroup on one shared context: inject(prevalidate=True/False), send(), send_async(counter=..)
+SYMS_ASYNC = ['N1', 'N2', 'F', 'A', 'S', 'I+', 'I-', 'J+', 'J-', 'X+', 'X-', 'Y+', 'Y-', 'B']
 
 _KEY = None
 
@@ -62,18 +71,19 @@ def step_flags(flags, sym):
         return (True, True, False, False)
     if sym == 'S':
         return (True, True, True, False) if filled else None
-    if sym in ('I+', 'I-'):
+    if sym in ('I+', 'I-', 'J+', 'J-'):
         if not signed:
             return None
-        return (True, filled, signed, sym == 'I+')
-    if sym in ('X+', 'X-'):
-        return (True, filled, signed, sym == 'X+')
+        return (True, filled, signed, sym[1] == '+')
+    if sym in ('X+', 'X-', 'Y+', 'Y-'):
+        return (True, filled, signed, sym[1] == '+')
     raise ValueError(sym)
 
 
-def sequences(max_len):
-    """All well-formed call sequences of length 1..max_len."""
+def sequences(max_len, syms=None):
+    """All well-formed call sequences of length 1..max_len (over SYMS, or over the given alphabet)."""
     out = []
+    SYMS = syms or globals()['SYMS']
 
     def rec(seq, flags):
         if seq:
@@ -91,6 +101,11 @@ def sequences(max_len):
 
 # ----------------------------------------------------------------------------- initial node / client states
 COUNTERS = [0, 126]                                  # 126: a batch of 3 crosses the 1-byte zarith boundary 127|128
+# additional node counters for the shorter additional runs (props/C25.py): an account that never sent anything (0, in the quick
+# tier too) and a counter of many digits (9 zarith bytes; beyond 2^53, where a float would lose the last digits)
+EXTRA_CONFIGS = [(0, 'p0', 'fresh'), (0, 'p3', 'after-refused'), (2 ** 62 + 1, 'p3', 'fresh'), (2 ** 62 + 1, 'p1+refused', 'after-included')]
+ASYNC_CONFIGS = [(126, 'p0', 'fresh'), (126, 'p3', 'fresh'), (0, 'p1+refused', 'after-refused')]
+REVEAL_CONFIGS = [(126, 'p3', 'fresh'), (0, 'p1+refused', 'after-refused'), (126, 'p0', 'after-included')]
 PENDING = {'p0': ((), ()), 'p1+refused': ((1,), (1,)), 'p3': ((2, 1), ())}   # (pending groups, refused groups) of the account
 PRELUDES = {'fresh': (), 'after-included': ('N1', 'A', 'S', 'I+', 'B'), 'after-refused': ('N1', 'A', 'S', 'I-')}
 
@@ -177,8 +192,11 @@ def run_sequence(cfg, seq, stop_at_first=True):
         try:
             if sym[0] == 'N':
                 g = OperationGroup(context=ctx)
-                for j in range(int(sym[1])):
-                    g = g.transaction(destination=N.OTHER, amount=j + 1)
+                if sym == 'NR':
+                    g = g.reveal().transaction(destination=N.OTHER, amount=1)
+                else:
+                    for j in range(int(sym[1])):
+                        g = g.transaction(destination=N.OTHER, amount=j + 1)
                 info = dict(path='', pending_at_fill=None, alloc_before=None)
             elif sym == 'B':
                 st.new_block()
@@ -194,12 +212,17 @@ def run_sequence(cfg, seq, stop_at_first=True):
                 ok = sym[1] == '+'
                 outcomes[:] = [ok]
                 before = len(st.injections)
-                inj_info = info if sym[0] == 'I' else dict(info, path=info['path'] + 'X')   # send autofills a private copy
+                inj_info = info if sym[0] in 'IJ' else dict(info, path=info['path'] + sym[0])   # send / send_async fill a private copy
                 if inj_info['pending_at_fill'] is None:
                     inj_info['pending_at_fill'], inj_info['alloc_before'] = st.pending_count(), gh.alloc_since_reset
                 try:
                     if sym[0] == 'I':
                         g.inject()
+                    elif sym[0] == 'J':
+                        g.inject(prevalidate=False)
+                    elif sym[0] == 'Y':
+                        # the counter a careful caller passes: the account's next counter at this moment
+                        g.send_async(ttl=5, counter=st.counter + st.pending_count() + 1, gas_limit=3040, storage_limit=257)
                     else:
                         g.send()
                 finally:
@@ -215,7 +238,7 @@ def run_sequence(cfg, seq, stop_at_first=True):
             flags = f2
         except RpcError as e:
             raised.append((idx, sym, 'RpcError'))
-            if sym in ('I-', 'X-') and flags is not None:
+            if sym in ('I-', 'X-', 'J-', 'Y-') and flags is not None:
                 flags = step_flags(flags, sym) or flags
             # fill / autofill / send refused by the node: the current group is unchanged
         except Exception as e:      # the client raised something else: recorded, never a violation by itself
@@ -238,7 +261,7 @@ def _inject_violation(rec, info, sym):
     path = info['path'] or '-'
     pf = info['pending_at_fill'] or 0
     ab = info['alloc_before'] or 0
-    only_fill = set(path) <= {'F'}
+    only_fill = set(path) <= {'F', 'Y'}          # send_async = fill + sign + inject: a fill()-only path as well
     if not consecutive:
         wc = f'non-consecutive counters (path {_shape(path)})'
     elif only_fill and ab == 0 and pf > 0 and delta == -pf:
@@ -276,7 +299,7 @@ def work(task):
         r = run_sequence(cfg, seq)
         n += 1
         inj += r['injections']
-        rpc_raised += sum(1 for x in r['raised'] if x[2] == 'RpcError' and x[1] not in ('I-', 'X-'))
+        rpc_raised += sum(1 for x in r['raised'] if x[2] == 'RpcError' and x[1] not in ('I-', 'X-', 'J-', 'Y-'))
         for x in r['raised']:
             if x[2] != 'RpcError':
                 other_exc[x[2][:120]] = other_exc.get(x[2][:120], 0) + 1
@@ -291,7 +314,7 @@ def _abstract(seq):
     """abstraction class of a sequence: sizes forgotten, runs of the same call collapsed"""
     out = []
     for s in seq:
-        a = 'N' if s[0] == 'N' else s
+        a = s if s == 'NR' else ('N' if s[0] == 'N' else s)
         if not out or out[-1] != a:
             out.append(a)
     return ''.join(out)
